@@ -22,6 +22,34 @@ Record Flushed (s : statedb) : Prop := {
 Lemma inv_le_state d d' s : db_le d d' -> Inv d s -> Inv d' s.
 Proof. intros L [A B C]. constructor; [eapply inv_le; eassumption|exact B|exact C]. Qed.
 
+(* the database is the one thing a StateDB shares, mutably, with its copies and
+   with every other StateDB: it only grows, and what a StateDB shows does not
+   depend on what others add to it *)
+Lemma views_le d d' s : DbOk d -> db_le d d' -> Inv d s -> state_eq d' s d s.
+Proof.
+  intros D L [A B C]. split; [|split; [repeat split; reflexivity|split; reflexivity]].
+  assert (Hobj : forall a o, get_obj (s_acc s) a = Some o ->
+            acct_rec d' o = acct_rec d o /\ forall k, get_state d' o k = get_state d o k).
+  { intros a o Hg. destruct (get_obj_spec d (s_acc s) a o D A Hg) as ([L1 L2 L3] & _ & _). split.
+    - unfold acct_rec. f_equal; [f_equal; f_equal|].
+      + rewrite !obj_code_spec. destruct (o_codec o) eqn:Ec; [reflexivity|].
+        assert (Hf : o_dirtyCode o = false).
+        { destruct (o_dirtyCode o) eqn:E; [|reflexivity]. exfalso. apply (oo_dcode d o L1 E Ec). }
+        specialize (L2 Hf). unfold code_res in L2. destruct (code_of d (a_code (o_data o))) eqn:E; [|contradiction].
+        rewrite (le_code d d' L _ _ E). reflexivity.
+      + rewrite !obj_delegations_spec. destruct (o_dlgs o) eqn:El; [reflexivity|].
+        assert (Hf : o_dirtyDlgs o = false).
+        { destruct (o_dirtyDlgs o) eqn:E; [|reflexivity]. exfalso. apply (oo_ddlgs d o L1 E El). }
+        specialize (L3 Hf). unfold dlgs_res in L3. destruct (dlgs_of d (a_dhash (o_data o))) eqn:E; [|contradiction].
+        rewrite (le_dlgs d d' L _ _ E). reflexivity.
+    - intros k. unfold get_state, get_committed. rewrite (get_trie_le d d' o L L1). reflexivity. }
+  split.
+  - intros a. unfold acc_view. destruct (get_obj (s_acc s) a) as [o|] eqn:Hg; [|reflexivity].
+    cbn. rewrite (proj1 (Hobj a o Hg)). reflexivity.
+  - intros a k. unfold stor_view. destruct (get_obj (s_acc s) a) as [o|] eqn:Hg; [|reflexivity].
+    apply (proj2 (Hobj a o Hg)).
+Qed.
+
 (* ---- every call preserves the invariant ---------------------------------------------------- *)
 Lemma step_inv d s o : DbOk d -> Inv d s -> Inv d (fst (step d s o)).
 Proof.
